@@ -173,6 +173,19 @@ def extract(repo):
         qual_alias = True
     else:
         raise ValueError("ENTITYfind_inherited_entity is not in a modelled form: " + fie[:300])
+    # the OVERLOADED_ATTR check of ENTITYresolve_expressions: the look-up in each supertype is the marked search (a fresh search id per
+    # supertype, every entity visited once, own attributes first, then the supertypes)
+    ere = _norm(_body(res, r"\bvoid\s+ENTITYresolve_expressions\s*\(\s*Entity\s+e\s*\)\s*\{"))
+    if not re.search(r"LISTdo_n\(e->u\.entity->supertypes,supr,Entity,b\)\{__SCOPE_search_id\+\+;if\(ENTITY_get_named_attribute_once\(supr,"
+                     r"attr->name->symbol\.name\)\)\{ERRORreport_with_symbol\(OVERLOADED_ATTR,&attr->name->symbol,attr->name->symbol\.name,"
+                     r"supr->symbol\.name\);", ere):
+        raise ValueError("ENTITYresolve_expressions: the OVERLOADED_ATTR look-up is not the marked search the model expects")
+    once = _norm(_body(res, r"\bstatic\s+Variable\s+ENTITY_get_named_attribute_once\s*\(\s*Entity\s+entity\s*,\s*char\s*\*\s*name\s*\)\s*\{"))
+    if not re.fullmatch(r"Variableattribute;if\(entity->search_id==__SCOPE_search_id\)\{return0;\}entity->search_id=__SCOPE_search_id;"
+                        r"LISTdo\(entity->u\.entity->attributes,attr,Variable\)if\(!strcmp\(VARget_simple_name\(attr\),name\)\)\{returnattr;\}LISTod;"
+                        r"LISTdo\(entity->u\.entity->supertypes,super,Entity\)if\(0!=\(attribute=ENTITY_get_named_attribute_once\(super,name\)\)\)"
+                        r"\{returnattribute;\}LISTod;return0;", once):
+        raise ValueError("ENTITY_get_named_attribute_once is not in the modelled form: " + once[:200])
     uselist_fallback = "uselist" in found
     skips_null = found["full-use"].group("skip") is not None
     # every place outside error.c where the front end asks ERRORis_enabled( CODE ): the check or side effect behind it depends
@@ -216,6 +229,8 @@ def extract(repo):
            "/-- `SELF\\name.attr`: when no supertype is DECLARED under `name`, the name is resolved in the entity's scope and the search is",
            "    repeated with the declared name of what it denotes (a supertype interfaced under a new name) -/",
            f"def groupQualifierResolvesAlias : Bool := {'true' if qual_alias else 'false'}",
+           "/-- the OVERLOADED_ATTR check looks a new attribute up in each supertype with the marked search (one visit per entity) -/",
+           "def overloadLookupMarked : Bool := true",
            "/-- the codes some `ERRORis_enabled( CODE )` outside error.c consults -/",
            "def guardedCodeNames : List String := [" + ", ".join(f'"{g}"' for g in guarded) + "]",
            "/-- first line number of a file, and whether the counter restarts for every file that is scanned -/",
